@@ -2,8 +2,8 @@
    Only ExtrOcamlBasic is used: bool/option/unit/list/prod/sumbool/sumor map to OCaml's own types,
    everything else (ascii, nat, string, tables) stays the extracted inductive type. *)
 From Coq Require Import ExtrOcamlBasic.
-From Spdx Require Import Model.Api Model.GenFiles Model.Ticks Model.Expand Spec.Lex Spec.MatchSpec Gen.Tables Gen.Template.
+From Spdx Require Import Model.Api Model.ParseStack Model.GenFiles Model.Ticks Model.Expand Spec.Lex Spec.MatchSpec Gen.Tables Gen.Template.
 Extraction Language OCaml.
 Extraction "model.ml" T0 parse scan satisfies validate_licenses extract_licenses canon
   gen_licenses_file gen_deprecated_file gen_exceptions_file tpl_licenses tpl_deprecated tpl_exceptions ref_tokens satisfied_by_t leaves_t expand
-  license_range strings_to_nodes sort_and_dedup.
+  license_range strings_to_nodes sort_and_dedup ps_tokens.
